@@ -15,7 +15,10 @@
 //! ```
 //! `gen --kind c05` writes the C05 template programs with the output a plain-Rust value-semantics oracle
 //! expects (`exp=`): copy / nested write / push / pop / reverse sequences (`c05tmpl`), captured arrays under
-//! same-named locals (`c05scoped`), long strings built in functions, returned and kept as elements (`c05long`).
+//! same-named locals (`c05scoped`), long strings built in functions, returned and kept as elements (`c05long`),
+//! impure index expressions in receiver / target chains (`c05impure`), later operands that change the variable an
+//! earlier operand has read (`c05order`). `gen --kind c04`: same-block re-declarations at another literal type with
+//! capturing functions in between (`c04retype`, expected output + the run by name, see `UNIQUE_NAMES_MARK`).
 //! `gen --seed S --n N [--kind main|product|float] [--bias b] [--max-stmts k]` writes request
 //! lines: every generated program text goes through the REAL front end (`pipeline::with_resolved`);
 //! accepted programs become `run` requests carrying the resolver's plan and the AST annotated with
@@ -163,6 +166,7 @@ fn generate(args: &[String]) -> i32 {
         }
         "float" => gen_float(seed, n, &mut out),
         "c05" => gen_c05(seed, n, &mut out),
+        "c04" => gen_c04(seed, n, &mut out),
         "files" => {
             // every *.ns file of a directory (sorted), e.g. the corpus or /repo/tests/stress
             let dir = util::opt(args, "--dir").unwrap_or(".");
@@ -352,6 +356,25 @@ fn path_text(p: &[usize]) -> String {
     p.iter().map(|i| format!("[{i}]")).collect()
 }
 
+/// First line of a program whose generator promises that no name is declared in two scopes that are live at the
+/// same time: lookup by resolver binding, lexical lookup and lookup BY NAME (`Runtime::run`, no facts) coincide on
+/// it, so the worker also runs it by name and compares (`ORACLE-FAIL .. [C04] bound vs by-name`).
+pub const UNIQUE_NAMES_MARK: &str = "# c04:unique-names";
+
+/// C04 template programs: the same name `make`-declared several times in ONE block at different literal types
+/// with capturing functions (readers, `{x}` placeholders, writers, nested readers) defined between the
+/// declarations and called after the later ones; hosts: top level, function body, loop body, branch. The
+/// expected output is computed by the generator (plain Rust): a re-declaration re-binds the SAME variable.
+fn gen_c04(seed: u64, n: u64, out: &mut Out) {
+    let mut rng = Rng::new(seed ^ 0xC04);
+    for _ in 0..n {
+        let (lines, exp) = progen::retype_program(&mut rng);
+        let src = format!("{UNIQUE_NAMES_MARK}\n{}", progen::render_lines(&lines));
+        let exp_hex: Vec<String> = exp.iter().map(|t| util::hex(t.as_bytes())).collect();
+        out.line(&request_with(&src, false, Some("c04retype"), Some(&exp_hex.join(","))));
+    }
+}
+
 /// Programs over three array variables built from copy / nested write / push / pop / reverse /
 /// pass-to-a-mutating-callee steps; the expected output is computed HERE with Rust value semantics,
 /// independently of the Lean model: any sharing between names in the real runtime shows up as a
@@ -360,6 +383,21 @@ fn gen_c05(seed: u64, n: u64, out: &mut Out) {
     let mut rng = Rng::new(seed ^ 0xC05);
     let names = ["a", "b", "c"];
     for _ in 0..n {
+        // effect order (progen.rs): impure index expressions in receiver / target chains; later operands that
+        // change the variable an earlier operand has read. Expected output: plain Rust, computed while generating.
+        if rng.chance(1, 3) {
+            let (lines, exp, tag) = if rng.chance(1, 2) {
+                let (l, e) = progen::impure_chain(&mut rng);
+                (l, e, "c05impure")
+            } else {
+                let (l, e) = progen::operand_order(&mut rng);
+                (l, e, "c05order")
+            };
+            let src = progen::render_lines(&lines);
+            let exp_hex: Vec<String> = exp.iter().map(|t| util::hex(t.as_bytes())).collect();
+            out.line(&request_with(&src, false, Some(tag), Some(&exp_hex.join(","))));
+            continue;
+        }
         if rng.chance(1, 5) {
             let (src, exp) = c05_long(&mut rng);
             let exp_hex: Vec<String> = exp.iter().map(|t| util::hex(t.as_bytes())).collect();
@@ -1115,7 +1153,17 @@ fn answer(line: &str, lineno: usize) -> String {
             if let Some(exp) = w.iter().find_map(|x| x.strip_prefix("exp=")) {
                 let want = format!("out={exp} end=ok");
                 if main != want {
-                    eprintln!("ORACLE-FAIL {lineno} [C05] value-semantics oracle: got {main} want {want}");
+                    if w.iter().any(|x| x.starts_with("tag=c04")) {
+                        eprintln!("ORACLE-FAIL {lineno} [C04] lexical-scoping oracle (a re-declaration in the same block re-binds the same variable): got {main} want {want}");
+                    } else {
+                        eprintln!("ORACLE-FAIL {lineno} [C05] value-semantics oracle: got {main} want {want}");
+                    }
+                }
+            }
+            if text.lines().next().is_some_and(|l| l.trim() == UNIQUE_NAMES_MARK) {
+                let by_name = exec_by_name(&text, allow);
+                if by_name != main {
+                    eprintln!("ORACLE-FAIL {lineno} [C04] bound vs by-name lookup on a program with unique names: {main} vs {by_name}");
                 }
             }
             main
@@ -1180,10 +1228,24 @@ fn scope_tag_oracle(src: &str) -> Option<String> {
             return;
         };
         let mut makes = Vec::new();
+        // C04 itself: a name `make`-declared again directly in the same block is the SAME variable
+        let mut by_name: Vec<(&str, u32)> = Vec::new();
         for stmt in b.stmts {
             match stmt {
-                Stmt::Assign { .. } => match facts.stmt_local(stmt) {
-                    Some(l) => makes.push(l.0),
+                Stmt::Assign { var, .. } => match facts.stmt_local(stmt) {
+                    Some(l) => {
+                        makes.push(l.0);
+                        match by_name.iter().find(|(n, _)| n == var) {
+                            Some((_, first)) if *first != l.0 => {
+                                bad.get_or_insert(format!(
+                                    "same-block re-declaration: `make {var}` in block {}..{} binds local {} while the earlier `make {var}` of that block binds local {first}",
+                                    b.span.start, b.span.end, l.0
+                                ));
+                            }
+                            Some(_) => {}
+                            None => by_name.push((*var, l.0)),
+                        }
+                    }
                     None => {
                         bad.get_or_insert(format!("unbound make in block {}..{}", b.span.start, b.span.end));
                     }
@@ -1273,6 +1335,15 @@ fn kind_name(message: &str) -> &'static str {
 
 /// The shipped pipeline (lex → parse → resolve → run) on fresh arenas; the canonical answer.
 pub fn exec(src: &str, with_frame: bool, with_plan: bool, allow_process: bool) -> String {
+    exec_mode(src, with_frame, with_plan, allow_process, false)
+}
+
+/// The run WITHOUT the resolver's facts (`Runtime::run`): every variable and function is looked up by name.
+fn exec_by_name(src: &str, allow_process: bool) -> String {
+    exec_mode(src, true, false, allow_process, true)
+}
+
+fn exec_mode(src: &str, with_frame: bool, with_plan: bool, allow_process: bool, by_name: bool) -> String {
     let r = util::catch(|| {
         let arena = Arena::new(pipeline::ARENA_CAP).unwrap();
         let frame = Arena::new(pipeline::ARENA_CAP).unwrap();
@@ -1292,7 +1363,11 @@ pub fn exec(src: &str, with_frame: bool, with_plan: bool, allow_process: bool) -
         let plan = if with_plan { resolver.optimization_plan.as_ref() } else { None };
         // a panic inside the run must still let us read the output collected so far
         let res = util::catch(|| {
-            rt.run_with_analysis(root, &resolver.facts, plan);
+            if by_name {
+                rt.run(root);
+            } else {
+                rt.run_with_analysis(root, &resolver.facts, plan);
+            }
         });
         let outs: Vec<String> = rt.output.iter().map(|v| util::hex(format!("{v}").as_bytes())).collect();
         let out = if outs.is_empty() { "none".to_string() } else { outs.join(",") };
